@@ -15,6 +15,13 @@ macro:max "c!" s:str : term => do
   let elems := cs.map fun c => (Syntax.mkCharLit c : TSyntax `term)
   `(([$(elems.toArray),*] : List Char))
 
+open Lean in
+/-- `b!"abc"` elaborates to the literal list of the UTF-8 bytes `[0x61, 0x62, 0x63]`. -/
+macro:max "b!" s:str : term => do
+  let bs := s.getString.toUTF8.toList
+  let elems := bs.map fun b => (Syntax.mkNumLit (toString b.toNat) : TSyntax `term)
+  `(([$(elems.toArray),*] : List UInt8))
+
 def hexDigit (n : Nat) : Char :=
   if n < 10 then Char.ofNat (48 + n) else Char.ofNat (87 + n)
 
